@@ -102,3 +102,49 @@ Qed.
 
 Lemma absr_length ul doff fb f : forall tab i, length (LP.absr ul doff fb i tab f) = length tab.
 Proof. induction tab as [|c tab IH]; intros i; [reflexivity|]. cbn [LP.absr length]. rewrite IH. reflexivity. Qed.
+
+(* ------------------------------------------------------------------------------------ *)
+(** * the file at the end *)
+
+Section FinalFile.
+Variable cs : list chunk.
+Variable doff : N.
+Variable fb : bytes.
+Hypothesis St : starts_ok 0 cs.
+Hypothesis Lb : len fb = doff + data_total cs.
+
+Lemma nth_absr_cs ul fl f : forall t c, nth_error cs t = Some c ->
+  exists s, nth_error (LP.absr ul doff fb 0 (wtab cs fl) f) t = Some s /\
+    U.s_srv s = W.fread fb (doff + c_start c) (N.to_nat (c_clen c)) /\
+    U.s_cur s = W.fread f (doff + c_start c) (N.to_nat (c_clen c)) /\
+    U.s_flag s = flag_of_Z (nth t fl 0%Z).
+Proof.
+  intros t c Hn. rewrite LP.nth_absr, nth_wtab, Hn. cbn [option_map]. eexists. split; [reflexivity|].
+  unfold LP.slot_of. cbn [U.s_srv U.s_cur U.s_flag W.c_start W.c_len W.c_valid]. rewrite flag_v_Z. auto.
+Qed.
+
+(** header bytes are B's and every extent reads as B's: after the ftruncate the file is B *)
+Lemma final_file ul fl f :
+  (forall x, x < doff -> W.fget f x = W.fget fb x) ->
+  map U.s_cur (LP.absr ul doff fb 0 (wtab cs fl) f) = map U.s_srv (LP.absr ul doff fb 0 (wtab cs fl) f) ->
+  truncate (doff + data_total cs) f = fb.
+Proof.
+  intros Hh Hc. apply (nth_ext _ _ 0 0).
+  - rewrite truncate_len. pose proof Lb as Lb'. unfold len, byte in *. lia.
+  - intros i Hi. rewrite truncate_len in Hi. rewrite nth_truncate by exact Hi.
+    change (nth i fb 0) with (nth i fb 0). 
+    assert (W.fget fb (N.of_nat i) = nth i fb 0) as Eb by (unfold W.fget; rewrite Nnat.Nat2N.id; reflexivity).
+    rewrite <- Eb. set (x := N.of_nat i).
+    destruct (N.lt_ge_cases x doff) as [L|L]; [apply Hh; exact L|].
+    destruct (cover cs 0 (x - doff) St ltac:(lia)) as [t [c [Hn Hr]]].
+    destruct (nth_absr_cs ul fl f t c Hn) as [s [Hs [E1 [E2 _]]]].
+    assert (U.s_cur s = U.s_srv s) as Es.
+    { apply (f_equal (fun l => nth_error l t)) in Hc. rewrite !nth_error_map, Hs in Hc. cbn in Hc. congruence. }
+    rewrite E1, E2 in Es.
+    set (k := N.to_nat (x - doff - c_start c)).
+    assert (Hk : (k < N.to_nat (c_clen c))%nat) by (unfold k; lia).
+    apply (f_equal (fun l => nth k l 0)) in Es. rewrite !FL.nth_fread in Es by exact Hk.
+    replace (doff + c_start c + N.of_nat k) with x in Es by (unfold k; lia). exact Es.
+Qed.
+
+End FinalFile.
